@@ -139,8 +139,10 @@ def write_evidence(ctx, out, nviol, kf_seen):
         "wall_s": round(time.time() - ctx.t0, 2),
         "violations": int(nviol),
     }
-    os.makedirs(os.path.join(VERIF, "evidence"), exist_ok=True)
-    with open(os.path.join(VERIF, "evidence", ctx.prop + ".json"), "w") as fh:
+    # X.. = checks beyond the listed properties: their evidence is kept apart from evidence/<property id>.json
+    edir = os.path.join(VERIF, "evidence_extra" if ctx.prop.startswith("X") else "evidence")
+    os.makedirs(edir, exist_ok=True)
+    with open(os.path.join(edir, ctx.prop + ".json"), "w") as fh:
         json.dump(ev, fh, indent=1, default=str)
 
 
